@@ -296,6 +296,26 @@ fn sample(ev: &mut EvReaders, er: &EntReaders, ents: &bevy::ecs::entity::Entitie
         ev.4.try_read().ok().map(|(t, e)| format!("{}:{}", name_of(t), e.0.0)).unwrap_or("-".into()),
         ev.5.try_read().ok().map(|(t, e)| format!("{}:{}", name_of(t), e.0.0)).unwrap_or("-".into()),
     ];
+    // every reader has several accessors: they must agree with each other
+    macro_rules! bc_check { ($r:expr, $n:literal) => {
+        let t = $r.try_read().ok().map(|e| e.0.0);
+        if $r.is_empty() != t.is_none() { log(format!("accessor-mismatch bc{} is_empty={} try_read={}", $n, $r.is_empty(), opt(t))); }
+        if !$r.is_empty() && t.is_some() && Some($r.read().0.0) != t { log(format!("accessor-mismatch bc{} read", $n)); }
+    } }
+    bc_check!(ev.2, 0); bc_check!(ev.3, 1);
+    macro_rules! ev_check { ($r:expr, $n:literal) => {
+        let t = $r.try_read().ok().map(|(t, e)| (t, e.0.0));
+        if $r.is_empty() != t.is_none() { log(format!("accessor-mismatch ev{} is_empty={} try_read={}", $n, $r.is_empty(), t.is_some())); }
+        if $r.get_entity().ok() != t.map(|x| x.0) { log(format!("accessor-mismatch ev{} get_entity", $n)); }
+        if let Some((te, tp)) = t { if !$r.is_empty() { let (re, rp) = $r.read(); if re != te || rp.0.0 != tp || $r.entity() != te { log(format!("accessor-mismatch ev{} read", $n)); } } }
+    } }
+    ev_check!(ev.4, 0); ev_check!(ev.5, 1);
+    macro_rules! er_check { ($r:expr, $n:literal) => {
+        let g = $r.get().ok();
+        if $r.is_empty() != g.is_none() { log(format!("accessor-mismatch {} is_empty={} get={}", $n, $r.is_empty(), opt_name(g))); }
+        if let Some(e) = g { if !$r.is_empty() && $r.entity() != e { log(format!("accessor-mismatch {} entity", $n)); } }
+    } }
+    er_check!(er.0, "ins0"); er_check!(er.1, "ins1"); er_check!(er.2, "mut0"); er_check!(er.3, "mut1"); er_check!(er.4, "rem0"); er_check!(er.5, "rem1");
     // the three ways of reading a despawn event must agree
     let dsp = er.6.get().ok();
     let dsp2 = if er.6.is_empty() { None } else { Some(er.6.entity()) };
@@ -370,6 +390,7 @@ fn interpret(c: &mut Commands, ctx: &mut Ctx, act: &SAct)
         // (only an exclusive body can call the `World`-level senders or flush: see `make_exclusive`)
         SAct::Direct(a) => interpret(c, ctx, a),
         SAct::Flush => {}
+        SAct::RunNow(r) => { let Some(e) = resolve(*r) else { return }; c.queue(SystemCommand(e)); }
         SAct::Spawn => { let e = c.spawn_empty().id(); SH.with(|s| s.borrow_mut().ent_names.push(e)); }
         SAct::SpawnSys(d) => { spawn_scripted(c, *d); }
         SAct::On(m, d, ts) =>
@@ -733,6 +754,8 @@ fn make_exclusive(def: usize, name: usize) -> impl FnMut(&mut World, Local<u32>)
             match act
             {
                 SAct::Flush => world.flush(),
+                // a command applied in-line over whatever the body has queued: the runner's own poll flushes that
+                SAct::RunNow(r) => { if let Some(e) = resolve(*r) { bevy::ecs::world::Command::apply(SystemCommand(e), world); } }
                 SAct::Direct(a) =>
                 {
                     // the `World`-level senders, in-line: whatever the body queued so far (its own cleanup first) is applied,
